@@ -14,7 +14,9 @@ LEVEL = 'exploration'
 BUDGET_S = {'quick': 90, 'thorough': 1500}
 RULE = ("device lists of 1-6 RAMs with sizes from {1,2,3,4,5,7,8,9,15,16,17,255,256,4096} laid out adjacent / gapped / overlapping around bases "
         "{0, 0x1000, 0x7FFF0000, up to 2^32, above 2^32}; histories of 50-500 reads/writes (unique write values) aimed at begin+-8 and end+-8 of every "
-        "device through the hub API, mem_a accessors and executed LDR/STR; byte-map model compared after every op. distinct_nontrivial = distinct "
+        "device through the hub API, mem_a accessors and executed LDR/STR; some layouts have windows smaller/larger than the RAM behind them, two windows onto "
+        "one RAM, a device > 16 MiB, and re-configuration between accesses (window moved, controllers swapped, controller added or removed); byte-map model "
+        "compared after every op. distinct_nontrivial = distinct "
         "(layout class, size, position class in {inside, last-bytes, straddle-end, hole, overlap, above-4G, before-begin}, read/write, path) tuples.")
 ASSUMPTIONS = [
     "for an access that starts inside a device and runs past its end the model only requires: no resize, no other device changes, no host error, bytes before the "
